@@ -286,6 +286,15 @@ fn dump_fn<'tcx>(cx: &mut Ctx<'tcx>, did: DefId, kind: DefKind) -> J {
         tf.dedup();
         if !tf.is_empty() {
             o.push(("tf", J::Arr(tf.into_iter().map(J::s).collect())));
+            let mut tfe: Vec<String> = attrs
+                .target_features
+                .iter()
+                .filter(|f| !format!("{:?}", f.kind).contains("Implied"))
+                .map(|f| f.name.as_str().to_string())
+                .collect();
+            tfe.sort();
+            tfe.dedup();
+            o.push(("tfe", J::Arr(tfe.into_iter().map(J::s).collect())));
         }
         if attrs.flags.contains(
             rustc_middle::middle::codegen_fn_attrs::CodegenFnAttrFlags::TRACK_CALLER,
@@ -708,6 +717,21 @@ fn term_j<'tcx>(
                     }
                     if let Some(tr) = tcx.trait_of_assoc(*did) {
                         ci.push(("tr", J::s(path_of(tcx, tr))));
+                    }
+                    // target features required by the (declared) callee, e.g. core::arch intrinsics
+                    if matches!(tcx.def_kind(*did), DefKind::Fn | DefKind::AssocFn) {
+                        let cattrs = tcx.codegen_fn_attrs(*did);
+                        if !cattrs.target_features.is_empty() {
+                            let mut tf: Vec<String> = cattrs
+                                .target_features
+                                .iter()
+                                .filter(|f| !format!("{:?}", f.kind).contains("Implied"))
+                                .map(|f| f.name.as_str().to_string())
+                                .collect();
+                            tf.sort();
+                            tf.dedup();
+                            ci.push(("ctf", J::Arr(tf.into_iter().map(J::s).collect())));
+                        }
                     }
                     // callee declared `unsafe fn` (or an unsafe intrinsic)
                     if tcx.fn_sig(*did).skip_binder().safety().is_unsafe() {
